@@ -31,6 +31,27 @@ NOTE = {
  "C13": "the counter counts hooked loop iterations/comparisons, not machine instructions; bound constants derived in DESIGN.md",
  "C15": "native races are only as adversarial as the scheduler + failpoint delays make them (evidence reports how many slots saw >=2 concurrent installers); Miri explores seeds 0..N with preemption",
 }
+TECH = {
+ "C01": "runtime monitoring: reference-model oracle over an enumerated grid on native SWAR/SSE2/AVX2 + forced dispatch, Miri (x86_64, aarch64 NEON, s390x, i686), wasm simd128 under node",
+ "C02": "runtime monitoring: reference-model oracle over the mirrored grid on native backends + forced dispatch, Miri (x86_64, aarch64 NEON, s390x, i686), wasm simd128 under node",
+ "C03": "runtime monitoring: naive-search oracle over exhaustive/inflated/structured/random pairs, native + forced SSE2/fallback, Miri, wasm simd128",
+ "C04": "runtime monitoring: naive reverse-search oracle over the same pair generators, native + forced configurations, Miri, wasm simd128",
+ "C05": "sanitizers and fault monitors: PROT_NONE guard-page arena + SIGSEGV reporter, Miri bounds/alignment (dev and release), AddressSanitizer (thorough), wasm end-of-linear-memory trap",
+ "C06": "runtime monitoring: deque model checked along exhaustively enumerated next/next_back/clone/count histories",
+ "C07": "runtime monitoring: count oracle over length x placement x density grid and partially consumed iterator states",
+ "C08": "runtime monitoring: greedy-sequence model over find_iter/rfind_iter transcripts with clone/into_owned and prefilter-inert coverage requirement",
+ "C09": "runtime monitoring: differential transcripts across build/dispatch configurations (native x6, wasm simd128, Miri NEON/s390x/i686), each also judged by the oracle",
+ "C10": "runtime monitoring: differential oracle check across prefilter settings x rankers",
+ "C11": "runtime monitoring: prefilter-soundness oracle (candidate <= first occurrence, candidate genuine) over index pairs",
+ "C12": "runtime monitoring: naive-search oracle on Two-Way, Rabin-Karp, Shift-Or, packed-pair find; constructor-domain checks",
+ "C13": "runtime monitoring: hooked deterministic step counter judged against a linear bound on adversarial size families",
+ "C14": "runtime monitoring: catch_unwind panic monitor in a debug-assertions + overflow-checks build; exactness sweep of the documented panic",
+ "C15": "runtime monitoring + race detectors: fresh-process first-call races (spin barrier, failpoint-widened window, post-race re-check) against a sequential oracle, Miri many-seeds data-race detection, ThreadSanitizer (thorough)",
+ "C16": "runtime monitoring: per-haystack oracle along finder reuse/clone/as_ref/into_owned histories and iterator conversions",
+ "C17": "runtime monitoring: counting global allocator armed around each call, with positive controls",
+ "C18": "runtime monitoring: slice-comparison oracle over lengths x difference positions x alignments incl. guard pages",
+ "C19": "runtime monitoring: pair-validity oracle over needle shapes x rankers and all 65536 index pairs",
+}
 checks = []
 for pid in sorted(plans.PLANS):
     t, ref = TEXT[pid]
@@ -45,7 +66,7 @@ for pid in sorted(plans.PLANS):
                           "text": "held on the executions described in the evidence file (never 'verified'): " + t,
                           "design_ref": "DESIGN.md section " + ref},
         "level_note": NOTE.get(pid, "oracle is a plain loop written without memchr code; inputs are those the generators produce; NEON only under Miri (interpreted intrinsics); wasm simd128 only when node is present (optional engine)"),
-        "technique": "runtime monitoring: " + t.split(":")[0].split(" on ")[0].split(" over ")[0],
+        "technique": TECH[pid],
     })
 m = {
  "version": 1,
